@@ -53,3 +53,153 @@ decoder("multidecoder.decoders.network.find_emails", ["C01", "C03", "C10"],
         each={**T("network.email", ""), "value-is-the-text-covered": "node.value == data[node.start : node.end]", "local-part-at-domain": "matches(rb'(?s)[^@]+@.+', node.value)"})
 decoder("multidecoder.decoders.network.find_ips", ["C01", "C03", "C10"], collector="out",
         each={**T("network.ip", ""), "canonical-and-identical-to-the-text-covered": "canon_quad(node.value) and node.value == data[node.start : node.end]"})
+
+# ------------------------------------------------------------------------------------------------ URL parts (C12)
+from pyvc.contract import lemma  # noqa: E402
+
+lemma("upper-of-lower", props=["C12"], vars={"x": "bytes"}, hyps=[], goal="x.lower().upper() == x.upper()", notes="bytes.lower / bytes.upper are pointwise ASCII case maps", trusted=True)
+
+contract(
+    "multidecoder.decoders.network.parse_ipv6", props=["C12"], trusted=True, types={"ip": "bytes"}, returns="Node", fresh_nodes=True,
+    raises={"ValueError": "True"},
+    ensures={"fresh": "result >= old(alloc())", "fields": "result.type == 'network.ipv6' and result.start == 0 and result.end == len(ip) and result.parent is None and nchildren(result) == 0", "own": "result.own == result"},
+    notes="ASSUMED: socket.inet_pton / ipaddress.IPv6Address raise only what parse_ipv6 turns into ValueError",
+)
+contract("multidecoder.decoders.network.normalize_path", props=["C12"], trusted=True, types={"path": "bytes"}, returns="tuple[bytes, str]",
+         notes="ASSUMED total (checked EXHAUSTIVELY against the dot-segment reference by the bounded stand-in of C12)")
+
+AUTH_EACH = {
+    "parentless": "node.parent is None",
+    "inside-the-authority": "0 <= node.start and node.start <= node.end and node.end <= len(authority)",
+    "no-children": "nchildren(node) == 0",
+    "authority-types": "node.type in ('network.url.username', 'network.url.password', 'network.ip', 'network.ipv6', 'network.domain')",
+    # user name and password: the span selects the text of the component and the value is that text percent-decoded (C12)
+    "userinfo-value": "implies(node.type in ('network.url.username', 'network.url.password'), node.value == unquote(authority[node.start : node.end]))",
+    # ... and the component is the one the URL grammar delimits: the user name starts the authority and runs up to the first ':' (or the last '@'),
+    "username-position": "implies(node.type == 'network.url.username', node.start == 0 and b':' not in authority[0 : node.end] and authority[node.end : node.end + 1] in (b':', b'@'))",
+    # the password sits between the first ':' and the last '@',
+    "password-position": "implies(node.type == 'network.url.password', authority[node.start - 1 : node.start] == b':' and b':' not in authority[0 : node.start - 1] "
+                         "and authority[node.end : node.end + 1] == b'@' and b'@' not in authority[node.end + 1 :])",
+    # and the host starts right after the last '@' (at 0 when there is none)
+    "host-position": "implies(node.type in ('network.ip', 'network.domain'), b'@' not in authority[node.start :] and (authority[node.start - 1 : node.start] == b'@' if b'@' in authority else node.start == 0))",
+    "domain-length": "implies(node.type == 'network.domain', node.end - node.start == len(node.value))",
+}
+# what the three destructuring assignments at the top of parse_authority establish, in position form
+AUTH_SPLIT = {
+    "userinfo-is-a-prefix": "authority[0 : len(userinfo)] == userinfo and len(userinfo) <= len(authority)",
+    "at-sign": "(b'@' in authority) == (authority[len(userinfo) : len(userinfo) + 1] == b'@') and b'@' not in address "
+               "and (len(userinfo) + 1 + len(address) == len(authority) if b'@' in authority else (userinfo == b'' and address == authority))",
+    "address-is-the-suffix": "authority[len(authority) - len(address) :] == address",
+    "host-is-a-prefix-of-the-address": "len(host) <= len(address) and address[0 : len(host)] == host",
+}
+AUTH_USERINFO = {
+    "username-is-a-prefix": "len(username) <= len(userinfo) and userinfo[0 : len(username)] == username and b':' not in username",
+    "username-delimiter": "(userinfo[len(username) : len(username) + 1] == b':') if b':' in userinfo else (username == userinfo and password == b'')",
+    "password-is-the-rest": "implies(b':' in userinfo, len(username) + 1 + len(password) == len(userinfo) and userinfo[len(username) + 1 :] == password)",
+}
+contract(
+    "multidecoder.decoders.network.parse_authority",
+    props=["C12", "C03", "C01"],
+    types={"@fork_ifexp": "yes", "out": "list[Node]"},
+    returns="list[Node]",
+    fresh_nodes=True,
+    collector="out",
+    raises={"ValueError": "True"},
+    cuts={
+        "if username": {"nothing-yet": "len(out) == 0 and offset == 0", **AUTH_SPLIT, **AUTH_USERINFO},
+        "if not host": {"two-so-far": "len(out) <= 2", "no-userinfo-no-offset": "implies(b'@' not in authority, offset == 0)", **AUTH_SPLIT},
+    },
+    hints={
+        # the user name / the password / the delimiter after the user name are slices of the userinfo, which is a slice of the authority
+        "if not host": [
+            "slice-of-slice: x=authority; a=0; b=len(userinfo); s=0; e=len(username)",
+            "slice-of-slice: x=authority; a=0; b=len(userinfo); s=len(username) + 1; e=len(userinfo)",
+            "slice-of-slice: x=authority; a=0; b=len(userinfo); s=len(username); e=len(username) + 1",
+        ]
+    },
+    ensures_each=AUTH_EACH,
+    ensures={"fresh": FRESH, "distinct": DISTINCT, "at-most-four": "len(result) <= 4"},
+)
+
+URL_EACH = {
+    "parentless": "node.parent is None",
+    "inside-the-url-text": "0 <= node.start and node.start <= node.end and node.end <= len(url_text)",
+    "no-children": "nchildren(node) == 0",
+    # each part's span selects the text of that component of the URL, and its value is that text decoded (C12)
+    "scheme": "implies(node.type == 'network.url.scheme', node.start == 0 and node.value == url_scheme(url_text) and url_text[node.start : node.end].lower() == node.value)",
+    "scheme-label": "implies(node.type == 'network.url.scheme', node.obfuscation == ('MixedCase' if url_text[0 : node.end] != url_text[0 : node.end].lower() "
+                    "and url_text[0 : node.end] != url_text[0 : node.end].upper() else ''))",
+    "path-span": "implies(node.type == 'network.url.path', url_text[node.start : node.end] == url_path(url_text))",
+    "query": "implies(node.type == 'network.url.query', url_text[node.start : node.end] == url_query(url_text) and node.value == unquote(url_query(url_text)))",
+    "fragment": "implies(node.type == 'network.url.fragment', url_text[node.start : node.end] == url_fragment(url_text) and node.value == unquote(url_fragment(url_text)))",
+    "userinfo-value": "implies(node.type in ('network.url.username', 'network.url.password'), node.value == unquote(url_text[node.start : node.end]))",
+}
+# position reached after each component, as a function of the urlsplit decomposition of url_text
+P_SCHEME = "(len(url_scheme(url_text)) + 1 if len(url_scheme(url_text)) > 0 else 0)"
+P_NETLOC = f"({P_SCHEME} + (2 + len(url_netloc(url_text)) if len(url_netloc(url_text)) > 0 else 0))"
+P_PATH = f"({P_NETLOC} + len(url_path(url_text)))"
+P_QMARK = f"({P_PATH} + (1 if url_has_query(url_text) else 0))"
+P_QUERY = f"({P_QMARK} + len(url_query(url_text)))"
+contract(
+    "multidecoder.decoders.network.parse_url",
+    props=["C12", "C03", "C01"],
+    types={"out": "list[Node]"},
+    returns="list[Node]",
+    fresh_nodes=True,
+    collector="out",
+    requires={
+        "printable-ascii-without-blanks": "matches(rb'[!-~]*', url_text)",
+        # find_urls only passes URL_RE matches, whose '//' is followed by a host; parse_url(b'file:///x') mis-places the path (outside C12: no URL node is built from it)
+        "authority-not-empty-when-present": "implies(url_has_netloc(url_text), len(url_netloc(url_text)) > 0)",
+    },
+    raises={"ValueError": "urlsplit_raises(url_text)"},
+    cuts={
+        "if url.netloc": {
+            "position": f"offset == {P_SCHEME}",
+            "authority-text": f"implies(url_has_netloc(url_text), url_text[{P_SCHEME} + 2 : {P_SCHEME} + 2 + len(url_netloc(url_text))] == url_netloc(url_text))",
+        },
+        "if url.path": {"position": f"offset == {P_NETLOC}"},
+        "if url_text[offset": {"position": f"offset == {P_PATH}"},
+        "if url.query": {"position": f"offset == {P_QMARK}"},
+        "if url.fragment": {"position": f"offset == {P_QUERY}"},
+    },
+    hints={"if url.netloc": ["upper-of-lower: x=url_text[0 : len(url_scheme(url_text))]"],
+           "if url.path": [f"slice-of-slice: forall s e: x=url_text; a={P_SCHEME} + 2; b={P_SCHEME} + 2 + len(url_netloc(url_text)); s=s; e=e"]},
+    ensures_each=URL_EACH,
+    ensures={"fresh": FRESH},
+)
+
+
+# ------------------------------------------------------------------------------------------------ find_urls (C01, C03, C10, C12)
+lemma("printable-slice", props=["C12"], vars={"x": "bytes", "a": "int", "b": "int"}, hyps=["matches(rb'[!-~]*', x)"], goal="matches(rb'[!-~]*', x[a:b])",
+      notes="a language of the form C* is closed under taking slices", trusted=True)
+contract("multidecoder.decoders.network._is_printable", props=["C01"], trusted=True, types={"b": "bytes"}, returns="bool",
+         notes="ASSUMED total (str.isprintable; UnicodeDecodeError is caught in the function)")
+contract(
+    "multidecoder.decoders.network.normalize_percent_encoding", props=["C10", "C12"], trusted=True, types={"uri": "bytes"}, returns="tuple[bytes, str]",
+    ensures={"printable-stays-printable": "implies(matches(rb'[!-~]*', uri), matches(rb'[!-~]*', result[0]))", "never-longer": "len(result[0]) <= len(uri)",
+             "label": "result[1] in ('', 'escape.percent')"},
+    notes="ASSUMED (re.sub with a callback is outside pyvc): every %XX is replaced by one unreserved byte or by its upper-cased spelling; value and label are compared with the "
+          "reference norm_pct on every URL of the bounded stand-in (C10)",
+)
+contract(
+    "multidecoder.decoders.network.is_url",
+    props=["C01", "C10", "C12"],
+    types={"url": "bytes"},
+    returns="bool",
+    ensures={
+        # what find_urls relies on before it hands the text to parse_url: urlsplit accepts it, and there is a host (so the authority is not empty)
+        "accepted-by-urlsplit": "implies(result, not urlsplit_raises(url))",
+        "has-an-authority": "implies(result, url_has_netloc(url) and len(url_netloc(url)) > 0)",
+        "scheme": "implies(result, url_scheme(url) in (b'http', b'https', b'ftp'))",
+    },
+)
+decoder(
+    "multidecoder.decoders.network.find_urls",
+    ["C01", "C03", "C10", "C12"],
+    collector="out",
+    each={**T("network.url", ""), "label": "node.obfuscation in ('', 'escape.percent')", "scheme": "url_scheme(node.value) in (b'http', b'https', b'ftp')"},
+    types={"out": "list[Node]"},
+    asserts={"start, end = match.span()": {"the-match-is-printable-ascii": "matches(rb'[!-~]*', group)"}},
+    hints={"normalized, obfuscation =": ["printable-slice: x=match.group(); a=0; b=prev", "printable-slice: x=match.group(); a=0; b=close"]},
+)
